@@ -213,6 +213,51 @@ def evaluate(ck, rng, spec, crys, mode, stats, coq_terms):
     return view
 
 
+def noisy_check(ck, nr, spec, thr, amp, stats):
+    """float evaluator for crystals with coordinate noise and a loosened threshold: every stored (rot, trans, indexmap) must map every atom
+    onto its recorded image within the threshold, the set must be a group modulo lattice translations and as large as without noise"""
+    from onsager import crystal
+    d = spec.dim
+    basis = [[u + nr.uniform(-amp, amp, d) for u in ul] for ul in spec.fbasis()]
+    replay = {"spec": spec.describe(), "threshold": thr, "noise": amp, "basis": [[u.tolist() for u in ul] for ul in basis]}
+    ck.case(key=(spec.describe(), "noisy", thr, amp), nontrivial=True, kind="%dD-noisy-thr%g" % (d, thr))
+    try:
+        crys = crystal.Crystal(spec.A, basis, threshold=thr, noreduce=True)
+        ref = crystal.Crystal(spec.A, spec.fbasis(), noreduce=True)
+    except Exception as e:
+        report(ck, stats, "Crystal(noisy non-symmorphic crystal, threshold=%g) raised %s: %s" % (thr, type(e).__name__, e), replay, "c18-construct-exception")
+        return
+    stats["noisy-crystals"] = stats.get("noisy-crystals", 0) + 1
+    tol = 4 * max(thr, amp)
+    wrap = lambda v: v - np.round(v)
+    worst = 0.0
+    for g in crys.G:
+        if len(g.indexmap) != crys.Nchem or any(sorted(p) != list(range(len(ul))) for p, ul in zip(g.indexmap, crys.basis)):
+            report(ck, stats, "indexmap of an operation is not one permutation per chemistry", dict(replay, rot=g.rot.tolist()), "c18-op-invalid"); return
+        for c, ul in enumerate(crys.basis):
+            for i, u in enumerate(ul):
+                e = float(np.abs(wrap(np.dot(g.rot, u) + g.trans - ul[g.indexmap[c][i]])).max())
+                worst = max(worst, e)
+                if e > tol:
+                    report(ck, stats, "noisy crystal (noise %g, threshold %g): rot.u + trans misses the atom recorded in indexmap by %.3g (rot %s, trans %s)" % (
+                        amp, thr, e, g.rot.tolist(), np.round(g.trans, 7).tolist()), dict(replay, rot=g.rot.tolist(), trans=g.trans.tolist()), "c18-noisy-op")
+                    return
+    stats["noisy-max-miss/thr"] = max(stats.get("noisy-max-miss/thr", 0.0), worst / thr)
+    ops = list(crys.G)
+    def find(rot, trans, perm):
+        return any(np.array_equal(rot, h.rot) and perm == h.indexmap and np.abs(wrap(trans - h.trans)).max() <= tol for h in ops)
+    for g in ops:
+        gi = g.inv()
+        if not find(gi.rot, gi.trans, gi.indexmap):
+            report(ck, stats, "noisy crystal: inverse of an operation is missing", dict(replay, rot=g.rot.tolist()), "c18-not-group"); return
+        for h in ops:
+            gh = g * h
+            if not find(gh.rot, gh.trans, gh.indexmap):
+                report(ck, stats, "noisy crystal: product of two operations is missing", dict(replay, rot1=g.rot.tolist(), rot2=h.rot.tolist()), "c18-not-group"); return
+    if len(crys.G) != len(ref.G):
+        report(ck, stats, "noisy crystal (noise %g, threshold %g): |G| = %d, without noise %d" % (amp, thr, len(crys.G), len(ref.G)), replay, "c18-noisy-order")
+
+
 def run_coq(ck, coq_terms, stats):
     # chunk by cost (closure is cubic in |G|)
     chunks, cur, cost = [], [], 0
@@ -260,7 +305,7 @@ def run(ck):
     specs = list(latt.named_specs())
     if ck.quick:
         rng.shuffle(specs); specs = specs[:7]
-    nrand = ck.n(26, 600)
+    nrand = ck.n(18, 600)
     for k in range(nrand):
         dim = 2 if k % 3 == 0 else 3
         specs.append(latt.random_spec(rng, dim=dim, maxatoms=ck.n(8, 12)))
@@ -292,7 +337,7 @@ def run(ck):
         keep = [a for a in afm if a.label in ("hcp+afm001", "sc+afm111", "fcc+afm111")]
         rest = [a for a in afm if a not in keep]; rng.shuffle(rest)
         afm = keep + rest[:2]
-    nafm = ck.n(6, 120)
+    nafm = ck.n(4, 120)
     tries = 0
     while nafm > 0 and tries < 2000:
         tries += 1
@@ -361,6 +406,13 @@ def run(ck):
                 # strain() passes the crystal's own (possibly non-integer after reduction) spins on
                 s2.spins = None
                 evaluate(ck, rng, s2, crys, "strain", stats, coq_terms)
+    # noisy non-symmorphic crystals with loosened thresholds (translations with components exactly 1/2: hcp 6_3, glides, 2_1 screws)
+    nr = ck.nprng(18)
+    noisy = latt.glide_specs() + [x for x in latt.nonsymmorphic_specs() if x.label in ("ns-ortho-I", "ns-tet-I", "ns-rect-glide", "ns-ortho-C-4", "ns-ortho-I-3chem-reversed")]
+    for spec in noisy:
+        for thr, amp in ((1e-4, 1e-6), (1e-5, 1e-7)) if not ck.quick else ((1e-4, 1e-6),):
+            for rep in range(ck.n(1, 3)):
+                noisy_check(ck, nr, spec, thr, amp, stats)
     run_coq(ck, coq_terms, stats)
     kinds = stats.pop("kinds")
     ck.extra["stats"] = stats
